@@ -252,3 +252,34 @@ def blank (m : Module) : Module := ⟨blankL false m.body⟩
 def allLits (m : Module) : List Const := allL m.body
 
 end PMV.HoistCollect
+
+namespace PMV.HoistCollect
+open PMV
+
+/-! ### grouping: one hoisted binding per value (`HoistLiterals.get_binding` with the `HoistedValue` key) -/
+
+/-- `HoistedValue.__eq__`: same type and equal value (the spelling of a string does not matter) -/
+def sameValue : Const → Const → Bool
+  | .none, .none => true
+  | .true_, .true_ => true
+  | .false_, .false_ => true
+  | .str _ a, .str _ b => a == b
+  | .bytes _ a, .bytes _ b => a == b
+  | _, _ => false
+
+/-- add one occurrence to the dictionary `_hoisted` (insertion order; the first occurrence is the binding's value node) -/
+def insertG (c : Const) : List (Const × Nat) → List (Const × Nat)
+  | [] => [(c, 1)]
+  | (k, n) :: rest => if sameValue k c then (k, n + 1) :: rest else (k, n) :: insertG c rest
+
+/-- the hoisted bindings (value, number of references) for a sequence of collected occurrences -/
+def groupsFrom (g : List (Const × Nat)) : List Const → List (Const × Nat)
+  | [] => g
+  | c :: cs => groupsFrom (insertG c g) cs
+
+def groups (l : List Const) : List (Const × Nat) := groupsFrom [] l
+
+/-- `HoistLiterals._hoisted` after the traversal -/
+def bindingsOf (m : Module) : List (Const × Nat) := groups (collect m)
+
+end PMV.HoistCollect
